@@ -201,7 +201,7 @@ class JSSPFileGenerator(Generator):
     def list_files(path):
         files = [
             os.path.join(path, f)
-            for f in os.listdir(path)
+            for f in sorted(os.listdir(path))
             if os.path.isfile(os.path.join(path, f))
         ]
         assert len(files) > 0, "No files found in the specified path"
